@@ -56,6 +56,27 @@ pub fn decode_string(raw: &str) -> String {
   out
 }
 
+/// operator names as in spec/Arith.tla
+fn bin_op_name(o: expr::BinaryOperator) -> &'static str {
+  use expr::BinaryOperator::*;
+  match o {
+    MUL => "MUL",
+    DIV => "DIV",
+    MOD => "MOD",
+    PLUS => "PLUS",
+    MINUS => "MINUS",
+    LT => "LT",
+    LE => "LE",
+    GT => "GT",
+    GE => "GE",
+    EQ => "EQ",
+    NE => "NE",
+    AND => "AND",
+    OR => "OR",
+    CONCAT => "CONCAT",
+  }
+}
+
 struct Dumper<'a> {
   heap: &'a Heap,
   checked: &'a Checked,
@@ -165,7 +186,7 @@ impl<'a> Dumper<'a> {
       expr::E::Call(c) => self.call(c),
       expr::E::Binary(b) => {
         let mut v = json!({
-          "k": "Bin", "op": b.operator.kind_str(), "l": self.expr(&b.e1), "r": self.expr(&b.e2)
+          "k": "Bin", "op": bin_op_name(b.operator), "l": self.expr(&b.e1), "r": self.expr(&b.e2)
         });
         if matches!(b.operator, expr::BinaryOperator::EQ | expr::BinaryOperator::NE) {
           v["ot"] = json!(self.type_kind(b.e1.type_()));
